@@ -476,3 +476,39 @@ func visitsEveryElement(c *eng.Ctx, fn *ssa.Function, sub, want string) {
 	}
 	c.Check(n == 0, sub, at, fn, want, det)
 }
+
+// abandonOnlyWhenNoKeys: a table builder is abandoned (its file removed, no NewFile record) only when it holds no KEY.
+// Builder.Size() is the number of value bytes written so far: it is 0 for a table whose values are all empty, which is a
+// legal table (the table layer reads it back fine).  The flush path and the compaction path are siblings and must use the
+// same test: Count().
+func abandonOnlyWhenNoKeys(c *eng.Ctx) {
+	p := c.P
+	isCall := func(name string) func(ssa.Value) bool {
+		return func(x ssa.Value) bool {
+			cl, ok := x.(*ssa.Call)
+			return ok && cl.Common().IsInvoke() && cl.Common().Method.Name() == name && strings.HasSuffix(cl.Common().Value.Type().String(), "table.Builder")
+		}
+	}
+	n := 0
+	for _, fk := range []string{"kv.storeFlusher.Commit", "kv.compactJob.finishCompactionOutputFile"} {
+		f := c.Fn(fk)
+		// the decision "this table is kept" = the guards of builder.Close()
+		for i, a := range p.Sites(f, invokeOn("uilder", "Close")) {
+			n++
+			conds, _ := eng.GuardingConds(f, a.Instr)
+			byCount, bySize := false, false
+			for _, cd := range conds {
+				if eng.DependsOn(cd, isCall("Count")) {
+					byCount = true
+				}
+				if eng.DependsOn(cd, isCall("Size")) {
+					bySize = true
+				}
+			}
+			c.Check(byCount && !bySize, fmt.Sprintf("%s[%d]", fk, i), a.Instr, f,
+				"a table builder is closed into a table file whenever it holds a key (Count() > 0) and dropped only when it holds none; the number of value BYTES (Size()) is 0 for keys stored with empty values, and dropping such a table loses keys whose commit is then reported successful",
+				fmt.Sprintf("the decision depends on Count(): %v, on Size(): %v", byCount, bySize))
+		}
+	}
+	c.Check(n >= 2, "keep-or-drop-sites-found", nil, nil, "flush commit and compaction output both decide whether the builder becomes a table file", fmt.Sprintf("%d sites", n))
+}
